@@ -72,8 +72,17 @@ class P:
         PT = progs.prec_table()
         ntrees = 400 if tier == "quick" else 20000
         items = []
+        # the SAME effectful name in every operand position of one node: each occurrence is its own evaluation
+        F = ("ref", "f0"); G = ("call", "f0", [])
+        same = []
+        for op in ALL_OPS:
+            same += [[("bin", op, F, F)], [("bin", op, ("bin", op, F, F), F)], [("nbin", op, F, F)], [("bin", op, G, G)], [("bin", op, F, G)]]
+        same += [[("list", [F, F, F])], [("call", "f1", [F, F])], [("map", [(F, F), (F, F)])], [("tern", F, F, F)], [("call", "max", [F, F])],
+                 [("bin", "=", ("ref", "v"), ("bin", "-", F, F)), ("ref", "v")], [("un", "-", F), ("post", F, "++")],
+                 [("bin", "in", F, ("list", [F, F]))], [("bin", "<=", F, F), ("bin", "=", ("ref", "w"), ("lit", "true"))]]
+        crafted = list(same)
         for _ in range(ntrees):
-            stmts = [rnd_tree(rng, rng.choice([2, 3, 4])) for _ in range(rng.choice([1, 1, 2, 3]))]
+            stmts = crafted.pop() if crafted else [rnd_tree(rng, rng.choice([2, 3, 4])) for _ in range(rng.choice([1, 1, 2, 3]))]
             handlers = {}
             for name, hid in list(HIDS.items()) + list(GLOBALS.items()):
                 handlers[hid] = ("count", [("ret", rng.choice(RET)) for _ in range(rng.randint(1, 4))] + ([("arg", 0)] if rng.random() < 0.3 else []))
@@ -130,7 +139,7 @@ class P:
         if cls == "SKIP":
             self.skipped += 1; return "ok", ""
         want_log = "L[%s]" % ";".join("%d(%s)" % (h, ",".join(speceval.to_proto_value(a) for a in args)) for h, args in log)
-        if d["log"] != want_log:
+        if d["log"] != want_log and not speceval.log_matches(d["log"], log):
             return "violates", "call log %s, reference order %s" % (d["log"], want_log)
         if cls != d["cls"]:
             return "violates", "reference gives %s, evaluation gave %s" % (cls, d["cls"])
